@@ -1,4 +1,5 @@
 """C17 — each strictness option changes exactly the check it names, nothing else."""
+from props import C19
 from props.common_prog import judge_prog
 
 THEOREM_MODULES = ["Hcl.Theorems.C17", "Hcl.Tie.Ops", "Hcl.Tie.PinsCheck", "Hcl.Theorems.C17Mono"]
@@ -39,4 +40,6 @@ def streams(tier, seed):
         out.append({"name": "expr[%s]" % tag, "stream": "expr", "count": n1, "features": fs, "judge": judge_for(tag)})
         out.append({"name": "expr-mutated[%s]" % tag, "stream": "expr-mutated", "count": n2, "features": fs,
                     "judge": judge_for(tag)})
+    # what the user sees goes through the command line and the two files: the real binary on accepted, rejected, big, not-UTF-8, bare-CR files, good and malformed images, all options and TIMEOUT forms (as in C19)
+    out.append({"name": "cli", "stream": "cli", "count": 200 if tier == "quick" else 5000, "pygen": C19.pygen, "judge": C19.judge})
     return out
